@@ -931,6 +931,16 @@ func (g *generatorObject) init(vmCall func(*vm, int), nArgs int) {
 	vm.popCtx()
 }
 
+// unwound is deferred by everything that puts the generator into the executing state: step() takes it out of that
+// state on every normal path, so finding it there means that a Go panic (an interrupt, a stack overflow) is unwinding
+// through the resumption. The body will never continue: the generator is completed, not executing for ever.
+func (g *generatorObject) unwound() {
+	if g.state == genStateExecuting {
+		g.delegated = nil
+		g.state = genStateCompleted
+	}
+}
+
 func (g *generatorObject) validate() {
 	if g.state == genStateExecuting {
 		panic(g.val.runtime.NewTypeError("Illegal generator state"))
@@ -983,6 +993,7 @@ func (g *generatorObject) tryCallDelegated(fn func() (Value, bool)) (ret Value, 
 	if ex != nil {
 		g.delegated = nil
 		g.state = genStateExecuting
+		defer g.unwound()
 		return g.step(g.gen.nextThrow(ex)), false
 	}
 	return
@@ -1020,6 +1031,7 @@ func (g *generatorObject) next(v Value) Value {
 		v = nil
 	}
 	g.state = genStateExecuting
+	defer g.unwound()
 	return g.step(g.gen.next(v))
 }
 
@@ -1048,9 +1060,11 @@ func (g *generatorObject) throw(v Value) Value {
 			res = nil
 		}
 		g.state = genStateExecuting
+		defer g.unwound()
 		return g.step(g.gen.next(res))
 	}
 	g.state = genStateExecuting
+	defer g.unwound()
 	return g.step(g.gen.nextThrow(v))
 }
 
@@ -1082,6 +1096,7 @@ func (g *generatorObject) _return(v Value) Value {
 
 	g.gen.returning = v
 	g.state = genStateExecuting
+	defer g.unwound()
 	g.gen.enterNext()
 	vm := g.gen.vm
 	defer vm.popTryFrame()
